@@ -426,43 +426,38 @@ def current_raw(d):
     return [[[e.value for e in b] for b in r.buckets] for r in d.rankings]
 
 
+def removal_set(op_arg, uni):
+    if op_arg == "allbutlast":
+        return set(uni[:-1])
+    if op_arg == "all":
+        return set(uni)
+    mask = int(op_arg)
+    return set(x for j, x in enumerate(uni) if mask >> (j % 3) & 1)
+
+
 def apply_op(d, op, before):
-    """Apply a mutator.  Returns (expected rankings or None when no expectation, expect_empty: bool).
-    `before`: plain-value rankings before the call.  The expectation ignores rankings without bucket unless the
-    mutator is remove_empty_rankings (whether an emptied ranking is kept is not part of the property)."""
+    """Apply one mutator to the repo Dataset; `before` = plain-value rankings before the call.  Elements to remove are
+    always members of the current universe and are passed as Element objects."""
     from corankco.element import Element
     uni = sort_universe(set(x for r in before for b in r for x in b))
     kind, _, arg = op.partition(":")
     if kind == "empties":
         d.remove_empty_rankings()
-        return None
-    if kind == "rm":
-        if arg == "allbutlast":
-            s = set(uni[:-1])
-        elif arg == "all":
-            s = set(uni)
-        else:
-            mask = int(arg)
-            s = set(x for j, x in enumerate(uni) if mask >> (j % 3) & 1)
-        d.remove_elements(set(Element(x) for x in s))
-        return None
-    d.remove_elements_rate_presence_lower_than(float(arg))
-    return None
+    elif kind == "rm":
+        d.remove_elements(set(Element(x) for x in removal_set(arg, uni)))
+    else:
+        d.remove_elements_rate_presence_lower_than(float(arg))
 
 
 def expected_after(op, before):
+    """(expected rankings, exact).  exact=False: rankings without bucket in the result are ignored in the comparison
+    (whether an emptied ranking is kept is not part of the property; the repo drops them)."""
     uni = sort_universe(set(x for r in before for b in r for x in b))
     kind, _, arg = op.partition(":")
     if kind == "empties":
         return [r for r in before if len(r) > 0], True
     if kind == "rm":
-        if arg == "allbutlast":
-            s = set(uni[:-1])
-        elif arg == "all":
-            s = set(uni)
-        else:
-            mask = int(arg)
-            s = set(x for j, x in enumerate(uni) if mask >> (j % 3) & 1)
+        s = removal_set(arg, uni)
     else:
         m = len(before)
         t = Fraction(arg)
